@@ -921,6 +921,7 @@ def run(ck: Ck) -> None:
             'guard_is_a_sound_segmentwise_form': 'raise_sound raise_if',
             'root_is_stored_as_abspath': 'root_is_abspath',
             'root_not_reassigned_by_the_class': 'negb root_reassigned_in_class',
+            'constrain_flag_is_the_constructor_argument': 'constrain_flag_is_the_constructor_argument',
             'every_fs_access_goes_through_resolve_path': 'all_access_sites_resolved',
             # data flow of every OS call (Gen/FsOps_gen.v): hypotheses of c18_every_access_inside / c18_chain_accesses_inside
             'every_os_call_receives_a_resolve_path_result': 'every_os_call_receives_a_resolve_result',
@@ -963,6 +964,7 @@ def run(ck: Ck) -> None:
         ck.explain('instance:chain_and_file_classes_touch_no_file_system_themselves')
         ck.explain('translate:FsOps_gen')
         ck.explain('instance:root_')
+        ck.explain('instance:constrain_flag')
         ck.explain('translate:Containment_gen')
     # A model/implementation disagreement is explained only when every disagreeing function belongs to the part whose
     # concrete violation was exhibited (unify_path by an escaping pack path, _resolve_path by an observed escape).
